@@ -1,30 +1,47 @@
-"""dev helper: run one contract module and print every atom verdict"""
-import sys, time, importlib, os
-sys.path.insert(0, os.path.dirname(os.path.dirname(os.path.abspath(__file__))))
-from pyvc import discharge as D
-from pyvc.model import run_contract
-from pyvc.engine import reset_names
-def main():
-    mod = importlib.import_module(sys.argv[1])
-    repo = os.environ.get('REPO', '/repo')
-    only = sys.argv[2] if len(sys.argv) > 2 else None
-    tmo = int(os.environ.get('TMO', '10000'))
-    for c in mod.contracts(repo):
-        if only and only not in c.name: continue
-        reset_names()
-        t = time.time(); r = run_contract(repo, c)
-        print(f'== {c.name}: {len(r.obligations)} obligation instances, {r.n_paths} paths, gen {time.time()-t:.2f}s', 'UNSUPPORTED ' + r.unsupported if r.unsupported else '')
-        qs = D.prepare(r.obligations, shifts_for=D.shifts_by_name(c.shifts), units=c.units)
-        cq = D.prepare(r.canaries)
-        t = time.time(); D.run_queries(qs + cq, timeout_ms=tmo, jobs=int(os.environ.get("JOBS","16")))
-        bad = [q for q in qs if q.verdict != 'unsat']
-        for q in sorted(qs, key=lambda q: -q.secs)[:3]:
-            if q.secs > 1: print(f'   slow: {q.ob_name} atom{q.atom} {q.stage} {q.secs:.1f}s {q.goal_str[:100]!r}')
-        print(f'   {len(qs)} atoms, {len(bad)} not discharged, canaries refuted {sum(1 for q in cq if q.verdict != "unsat")}/{len(cq)}, wall {time.time()-t:.1f}s, solver {sum(q.secs for q in qs):.1f}s')
-        for q in bad[:int(os.environ.get('SHOW', '12'))]:
-            print(f'   - {q.ob_name} atom{q.atom} line {q.line} path {q.path}: {q.verdict} ({q.stage}) {q.secs:.2f}s {q.detail}\n       goal: {q.goal_str[:200]}')
-            if q.model and os.environ.get('MODEL'):
-                print('       model:', {k: v for k, v in q.model.items() if not k.startswith(('q!', 'r!')) and len(v) < 60})
+"""dev helper: run the contracts of one module (each generated in its own process, like ./check) and print atom verdicts
+usage: tools/dev.py contracts.vmdk [name-filter]   env: REPO, TMO (ms), SHOW, JOBS"""
+import importlib
+import os
+import sys
+import time
 
-if __name__ == '__main__':
+sys.path.insert(0, os.path.dirname(os.path.dirname(os.path.abspath(__file__))))
+from pyvc import discharge as D  # noqa: E402
+from pyvc import driver  # noqa: E402
+
+
+def main():
+    modname = sys.argv[1]
+    only = sys.argv[2] if len(sys.argv) > 2 else None
+    repo = os.path.abspath(os.environ.get("REPO", "/repo"))
+    tmo = int(os.environ.get("TMO", "45000"))
+    driver._setup_repo_path(repo)
+    mod = importlib.import_module(modname)
+    cs = mod.contracts(repo)
+    idx = [i for i, c in enumerate(cs) if not only or only in c.name]
+    jobs = int(os.environ.get("JOBS", "16"))
+    t0 = time.time()
+    gens = list(D._pool(jobs).map(driver.generate_contract, [(modname, i, repo, None) for i in idx]))
+    print(f"generation wall {time.time() - t0:.1f}s")
+    allq = [q for g in gens for q in g["queries"]]
+    t = time.time()
+    D.run_queries(allq, timeout_ms=tmo, jobs=jobs)
+    print(f"solve wall {time.time() - t:.1f}s")
+    for g in gens:
+        qs = [q for q in g["queries"] if q.kind == "ob"]
+        cq = [q for q in g["queries"] if q.kind == "canary"]
+        bad = [q for q in qs if q.verdict != "unsat"]
+        print(f"== {g['name']}: {g.get('n_obligations', 0)} obligation instances, {g.get('n_paths', 0)} paths, gen {g.get('gen_s', 0)}s",
+              ("UNSUPPORTED " + g["unsupported"]) if g["unsupported"] else "", g["error"])
+        print(f"   {len(qs)} atoms, {len(bad)} not discharged, canaries refuted {sum(1 for q in cq if q.verdict != 'unsat')}/{len(cq)}, solver {sum(q.secs for q in qs):.1f}s")
+        for q in sorted(qs, key=lambda q: -q.secs)[:3]:
+            if q.secs > 2:
+                print(f"   slow: {q.ob_name} atom{q.atom} {q.stage} {q.secs:.1f}s {q.goal_str[:100]!r}")
+        for q in bad[: int(os.environ.get("SHOW", "12"))]:
+            print(f"   - {q.ob_name} atom{q.atom} line {q.line} path {q.path}: {q.verdict} ({q.stage}) {q.secs:.2f}s {q.detail}\n       goal: {q.goal_str[:200]}")
+            if q.model and os.environ.get("MODEL"):
+                print("       model:", {k: v for k, v in q.model.items() if not k.startswith(("q!", "r!", "sq!", "sr!")) and len(v) < 60})
+
+
+if __name__ == "__main__":
     main()
